@@ -14,7 +14,9 @@ from drivers import websession_exec as X
 # listeners for the extra host forms
 X.HOSTS.update({'hi': ('xn--bcher-kva.test', '10.0.1.1'), 'h4': ('10.0.1.2', '10.0.1.2'), 'h6': ('::1', '::1'),
                 # a host whose name merely ends in another host's name (a sub-domain of h1, and a look-alike)
-                'hs': ('sub.h1.test', '10.0.1.3'), 'hx': ('xh1.test', '10.0.1.4')})
+                'hs': ('sub.h1.test', '10.0.1.3'), 'hx': ('xh1.test', '10.0.1.4'),
+                # two hosts given as address literals that end alike (an address has no domain hierarchy)
+                'ia': ('10.0.2.7', '10.0.2.7'), 'ib': ('10.9.2.7', '10.9.2.7')})
 
 UI = {'none': ('', None), 'user': ('user@', None), 'userpw': ('user:pw@', ('user', 'pw')),
       'enc': ('us%40er:p%3Aw@', ('us@er', 'p:w')), 'crlf': ('u%0d%0a:p%0d%0a@', ('u\r\n', 'p\r\n')),
@@ -102,6 +104,9 @@ def run_one(sc):
     if use == 'cookie':
         if c['cookie'].startswith('host-only->'):
             return run_related_host_case(c['cookie'].split('>')[1])
+        if c['cookie'].startswith('domain:'):
+            _, setter, target, domain = c['cookie'].split(':')
+            return run_domain_cookie_case(setter, target, domain)
         return run_cookie_case(c['cookie'])
     text = render(c)
     ascii_only = all(ord(ch) < 128 for ch in text)
@@ -203,6 +208,31 @@ def run_related_host_case(target):
     return {'maxred': 3, 'ev': out}
 
 
+def run_domain_cookie_case(setter, target, domain):
+    """`setter` sets a cookie WITH a Domain attribute, then redirects to `target`: for address literals (and for a
+    domain that is not the setter's own) the cookie must stay where it was set."""
+    from drivers.websession import expected
+    U = lambda h, p: {'scheme': 'http', 'host': h, 'port': 'def', 'path': p, 'creds': False}
+    head = (b'HTTP/1.1 302 Found\r\nLocation: ' + X.url_text(U(setter, 'b')).encode() + b'\r\nSet-Cookie: c_' + setter.encode()
+            + b'=1; Domain=' + domain.encode() + b'; Path=/\r\nContent-Length: 0\r\n\r\n')
+    script = {'start': U(setter, 'a'), 'maxred': 3,
+              'steps': [{'status': 302, 'loc': U(setter, 'b'), 'raw': head},
+                        {'status': 302, 'loc': U(target, 'a'), 'setcookie': False}, {'status': 200}]}
+    ev, outcome = X.run_script(script)
+    exps = [expected(U(setter, 'a')), expected(U(setter, 'b')), expected(U(target, 'a'))]
+    out = []
+    k = 0
+    for e in ev:
+        e = dict(e)
+        if e['e'] == 'send':
+            e['exp'] = exps[min(k, 2)]
+            k += 1
+            e.pop('url', None)
+            e.pop('_authv', None)
+        out.append(e)
+    return {'maxred': 3, 'ev': out}
+
+
 def run_cookie_case(name):
     from drivers.websession import expected
     U = lambda h, p: {'scheme': 'http', 'host': h, 'port': 'def', 'path': p, 'creds': False}
@@ -247,6 +277,11 @@ def run_text_cases(chk, quick):
     for target in ('hs', 'hx'):
         sc = {'text': {'cookie': 'host-only->' + target}, 'use': 'cookie', 'text_class': 'cookie=related-host-' + target}
         runs.append(('text/cookie', sc, run_related_host_case(target)))
+    for setter, target, domain in (('ia', 'ib', '.2.7'), ('ia', 'ib', '2.7'), ('h1', 'h2', '.test'), ('h1', 'h2', 'test'),
+                                   ('h1', 'hx', 'h1.test')):
+        sc = {'text': {'cookie': 'domain:%s:%s:%s' % (setter, target, domain)}, 'use': 'cookie',
+              'text_class': 'cookie=domain-attribute-%s-%s' % (setter, domain)}
+        runs.append(('text/cookie', sc, run_domain_cookie_case(setter, target, domain)))
     for name in sorted(COOKIE_VALUES):
         sc = {'text': {'cookie': name}, 'use': 'cookie', 'text_class': 'cookie=' + name}
         runs.append(('text/cookie', sc, run_cookie_case(name)))
